@@ -11,6 +11,7 @@ import json
 from io import StringIO
 from pathlib import Path
 
+from ruamel.yaml.scalarbool import ScalarBoolean
 from ruamel.yaml.comments import (
     CommentedMap, CommentedSet, CommentedSeq, TaggedScalar
 )
@@ -587,7 +588,14 @@ class Merger:
                     (lhs_anchor.value == rhs_anchor.value)
                     and (lhs_anchor.tag.value == rhs_anchor.tag.value))
             else:
-                anchors_match = lhs_anchor == rhs_anchor
+                # Equal values of different YAML types (true and 1, 2 and
+                # 2.0) compare equal in Python yet are different values.
+                anchors_match = (
+                    lhs_anchor == rhs_anchor
+                    and (isinstance(lhs_anchor, (bool, ScalarBoolean))
+                         == isinstance(rhs_anchor, (bool, ScalarBoolean)))
+                    and (isinstance(lhs_anchor, float)
+                         == isinstance(rhs_anchor, float)))
 
             if not anchors_match:
                 if conflict_mode is AnchorConflictResolutions.RENAME:
